@@ -155,7 +155,7 @@ func (b *backend) ensureEmitted(t *Term, sb *strings.Builder) {
 		}
 		fmt.Fprintf(sb, "(declare-fun %s (%s) %s)\n", t.name, args, sortStr(t.w))
 	}
-	fmt.Fprintf(sb, "(define-fun t%d () %s %s)\n", t.id, sortStr(t.w), body(t))
+	fmt.Fprintf(sb, "(define-fun t%d () %s %s)\n", t.id, sortOf(t), body(t))
 	for int(t.id) >= len(b.emitted) {
 		b.emitted = append(b.emitted, make([]bool, len(b.emitted)+1024)...)
 	}
@@ -397,6 +397,11 @@ func (p *Portfolio) Check(asserts []*Term, wantVars []*Term, assertion bool) (Re
 	for _, a := range asserts {
 		if a.heavy {
 			heavy = true
+		}
+	}
+	for _, a := range asserts {
+		if a.hasArr {
+			heavy = false // arrays go to z3 only
 			break
 		}
 	}
